@@ -58,6 +58,8 @@ PROP = {  # subject prefix -> (properties, what failed before the repair)
  "subset_ratio and count_ikey check their masks": ("C18", "subset_ratio label-aligned a misindexed subset_mask; count_ikey accepted a mask with a different pandas index"),
  "inputs are validated before timestamps": ("C18", "datetime-valued Series with a different index were accepted (index stripped before the check); polars / pyarrow boolean masks of the wrong length were accepted by apply/median/quantile"),
  "temporal values in pyarrow / polars containers": ("C03 C12", "pyarrow timestamp values raised TypeError; chunked temporal values raised TypingError in cumulative/rolling; datetime values on chunk-factorized keys raised TypingError (is_null(datetime64)); polars datetimes with nulls raised ArrowInvalid"),
+ "facade methods honour the column selection": ("C17", "groupby_fast(...).cumsum/cummax/cummin/ema/head/tail/apply/rolling ignored [] selection and aggregated the key columns; agg(func, mask) dropped the mask; iteration used .loc with row positions"),
+ "head/tail/nth of the DataFrame facade": ("C17", "df.groupby_fast(...).head/tail/nth raised AttributeError ('DataFrame' object has no attribute 'name')"),
  "apply returns an empty result": ("C05 C09", "median/apply with nothing selected raised IndexError (was known finding K2)"),
 }
 log = subprocess.run(["git", "-C", "/repo", "log", "--format=%h %s", "be63ad5..HEAD"], stdout=subprocess.PIPE).stdout.decode().splitlines()
